@@ -488,6 +488,27 @@ example :
     eqColl ⟨.track, [s 0 0]⟩ ⟨.fc, [s 0 0]⟩ = false ∧
     eqFC ⟨.fc, [s 5 5]⟩ ⟨.fc, [s 5 5]⟩ = true ∧ eqFC ⟨.fc, [s 5 5]⟩ ⟨.fc, [s 6 6]⟩ = false := by decide
 
+/-! ### `+` on feature collections is list concatenation: a monoid, additive in `len`, a union for `in` -/
+
+/-- concatenating feature collections is associative, has the empty collection as a unit on both sides,
+    adds lengths and unions membership -/
+theorem add_fc_assoc (a b c : List Shape) :
+    (add (mkFC a) (mkFC b) >>= fun ab => add ab (mkFC c)) =
+      (add (mkFC b) (mkFC c) >>= fun bc => add (mkFC a) bc) := by
+  simp [add_fc, bind, Except.bind, List.append_assoc]
+
+theorem add_fc_empty (a : List Shape) :
+    add (mkFC a) (mkFC []) = .ok (mkFC a) ∧ add (mkFC []) (mkFC a) = .ok (mkFC a) := by
+  simp [add_fc]
+
+theorem add_fc_len (a b : List Shape) (c : Coll) (h : add (mkFC a) (mkFC b) = .ok c) :
+    c.len = (mkFC a).len + (mkFC b).len := by
+  rw [add_fc] at h; cases h; simp [len, mkFC]
+
+theorem add_fc_contains (a b : List Shape) (c : Coll) (h : add (mkFC a) (mkFC b) = .ok c) (x : Shape) :
+    c.contains x = ((mkFC a).contains x || (mkFC b).contains x) := by
+  rw [add_fc] at h; cases h; simp [contains, mkFC, List.any_append]
+
 /-! ### non-vacuity -/
 
 /-- a Track receiver (chronological, with a long early interval and duplicate starts), non-trivial
